@@ -19,6 +19,14 @@ type Mutation struct {
 	Replace string   `json:"replace"`
 	Expect  []string `json:"expect"` // substrings of obligation names, at least one of which must fail
 	Why     string   `json:"why"`
+	Edits   []Edit   `json:"edits"` // several replacements (possibly in several files); used instead of File/Find/Replace
+}
+
+// Edit is one textual replacement of a multi-edit mutation.
+type Edit struct {
+	File    string `json:"file"`
+	Find    string `json:"find"`
+	Replace string `json:"replace"`
 }
 
 func loadMutations(verif, prop string) ([]Mutation, error) {
@@ -65,25 +73,38 @@ func runSelftests(cfg *PropConfig, repo, verif, work string) ([]map[string]any, 
 			defer wg.Done()
 			defer func() { <-sem }()
 			res := map[string]any{"mutation": m.Name, "file": m.File, "why": m.Why}
-			path := filepath.Join(repo, m.File)
-			src, err := os.ReadFile(path)
-			if err != nil {
-				res["status"] = "stale: " + err.Error()
+			edits := m.Edits
+			if len(edits) == 0 {
+				edits = []Edit{{File: m.File, Find: m.Find, Replace: m.Replace}}
+			}
+			overlay := map[string][]byte{}
+			stale := ""
+			for _, e := range edits {
+				path := filepath.Join(repo, e.File)
+				src, ok := overlay[path]
+				if !ok {
+					b, err := os.ReadFile(path)
+					if err != nil {
+						stale = "stale: " + err.Error()
+						break
+					}
+					src = b
+				}
+				if n := strings.Count(string(src), e.Find); n != 1 {
+					stale = fmt.Sprintf("stale: pattern occurs %d times in current %s", n, e.File)
+					break
+				}
+				overlay[path] = []byte(strings.Replace(string(src), e.Find, e.Replace, 1))
+			}
+			if stale != "" {
+				res["status"] = stale
 				mu.Lock()
 				results[i] = res
 				bad++
 				mu.Unlock()
 				return
 			}
-			if n := strings.Count(string(src), m.Find); n != 1 {
-				res["status"] = fmt.Sprintf("stale: pattern occurs %d times in current source", n)
-				mu.Lock()
-				results[i] = res
-				mu.Unlock()
-				return
-			}
-			patched := strings.Replace(string(src), m.Find, m.Replace, 1)
-			rr := runProp(cfg, repo, verif, map[string][]byte{path: []byte(patched)}, filepath.Join(work, sanitize(m.Name)), 10, false)
+			rr := runProp(cfg, repo, verif, overlay, filepath.Join(work, sanitize(m.Name)), 10, false)
 			if rr.err != nil {
 				res["status"] = "patched source does not load: " + rr.err.Error()
 				mu.Lock()
